@@ -325,7 +325,7 @@ class mapper(object):
            is the expression of p "after execution" whereas the indexing form
            uses p as an input (i.e "before execution") expression.
         """
-        if len(self) == 0:
+        if len(self) == 0 and not any(z._map for z in self.__Mem._zones.values()):
             return x
         return x.eval(self)
 
